@@ -323,7 +323,7 @@ impl Prop for C07 {
     }
     fn plan(&self, tier: Tier) -> Plan {
         match tier {
-            Tier::Quick => Plan { cases: 600_000, tape_len: 420 },
+            Tier::Quick => Plan { cases: 1_500_000, tape_len: 420 },
             Tier::Thorough => Plan { cases: 20_000_000, tape_len: 520 },
         }
     }
